@@ -3,7 +3,7 @@ package main
 const trustedNote = "Trusted base: go/packages + go/types + go/ssa (x/tools v0.29.0) for the configuration analysed; the audit table audit.json (one named construct per exception, reason recorded); the argument in DESIGN.md that each clause is a necessary condition of the property. The check decides the named structural clauses on every path / table cell of the current source; it does not execute uGO programs and does not decide the behavioural statement as a whole."
 
 func init() {
-	for _, id := range []string{"C01", "C02", "C04", "C08", "C10", "C11", "C12", "C16", "C17", "C20"} {
+	for _, id := range []string{"C01", "C02", "C04", "C11", "C16", "C17", "C20"} {
 		notApplicable[id] = "static check for this property is not implemented in this revision of /verif (planned clauses: DESIGN.md section 3); no claim is made"
 	}
 	notApplicable["C03"] = "finally-exactly-once depends on the run-time history of a per-activation handler list addressed by static nesting depths; every structural rule considered either restates today's mechanism (and would fire on a correct redesign) or is a mechanism-presence check the existing tests already pin. No sound static argument in reach bounds the handler-list history (DESIGN.md section 4)."
@@ -37,6 +37,24 @@ func init() {
 		Note:      trustedNote,
 		Technique: "static analysis: interval abstract interpretation of argument counts, dominating-guard analysis of panicking sinks, registry cross-check",
 		DesignRef: "DESIGN.md section 3, C19",
+	}
+	metas["C08"] = propMeta{
+		Text:      "Decides: (shared-write) the who-may-write set over Bytecode, CompiledFunction, SourceFileSet and SourceFile, taken over every function reachable (VTA) from VM.Run and from the error-formatting entry points, contains only stores into values the function allocated itself; (global-write) no run-reachable repository function stores to a package-level variable; (mod-copy) the module cache is written only in the dispatch loop with Copy() of every Copier; (copy-fresh) Copy() of container types never returns the receiver; (import-copy) BuiltinModule.Import returns a copy of Attrs; (pool-zero, pool-lock) pooled VMs are fully reset and the child registry is accessed under its mutex. Does not decide races on objects the host shares through globals/arguments, races inside user Importables, or results of concurrent runs. 'other': an ownership/effect analysis, not a schedule exploration.",
+		Note:      trustedNote + " The Go memory model is assumed; aliasing is handled by type-rooted access paths (any store through a pointer to one of the shared types counts).",
+		Technique: "static analysis: who-may-write query over the call graph, lockset, must-store, value-flow rules on SSA",
+		DesignRef: "DESIGN.md section 3, C08",
+	}
+	metas["C10"] = propMeta{
+		Text:      "Decides that Eval.Run threads the session state (thread): the compile call receives &r.Opts and &r.moduleStore; Opts.Constants is assigned between compile and run; VM.modulesCache is restored from the session after SetBytecode and before the run; Locals and ModulesCache are saved between the run and Clear; NumParams = NumLocals; (cache-grow) VM.Run only appends to an existing module cache; (shadow-define) every insertion of a non-builtin symbol into a symbol table is followed by shadowBuiltin(name) on every path, so later fragments' optimizers see earlier redefinitions of builtin names. Does not decide slot numbering coherence, const-literal folding across fragments, or the rewrite of the trailing POP. 'other'.",
+		Note:      trustedNote,
+		Technique: "static analysis: ordering (dominance) and value-flow rules inside Eval.Run, must-pass-through in the symbol-table definers",
+		DesignRef: "DESIGN.md section 3, C10",
+	}
+	metas["C12"] = propMeta{
+		Text:      "Decides: (mod-copy) the module cache has a single writer (the store-module arm) which copies Copier values; (root-share) a child VM's module cache is the root's slice; (cache-grow) Run never replaces a populated cache; (emit-pair) every OpStoreModule emission is dominated by an OpLoadModule emission with the same module-index value; (cycle-dom) the cyclic-import check dominates parse/fork/compile of a module on its nil-error side and walks the parent chain; (name-canonical) the file importer's module key passes through filepath.Abs. Does not decide which import executes first or the identity of values across import sites at run time. 'other'.",
+		Note:      trustedNote,
+		Technique: "static analysis: single-writer / value-flow / dominance rules on SSA",
+		DesignRef: "DESIGN.md section 3, C12",
 	}
 	metas["C05"] = propMeta{
 		Text:      "Decides structural necessary conditions of 'Compile returns Bytecode or an error, never panics': (panic-reach) every explicit panic statement reachable in the VTA call graph from Compile / compileScript / Compiler.Compile / Eval.Run (VM excluded) is swallowed on every call path by a deferred recover that type-asserts its value type, or is a named audited unreachable site; (fold-guard) every integer / % and signed shift in the optimizer's folding code has a dominating zero/sign test; (cap-check) every success return after Compiler.Bytecode() is dominated by the NumLocals limit test made on that very bytecode; (op-table) for each of the opcodes the operand table, name table, MakeInstruction arm (bytes appended = sum of widths), VM dispatch arm and the width handlers of MakeInstruction/ReadOperands agree. Does not decide termination, Go stack exhaustion on deep nesting, implicit index/nil panics in general, or that emitted jump targets are in range. 'other': reachability + dominance + table agreement, not an exploration of inputs.",
